@@ -335,6 +335,32 @@ def h_orig_bam(ex, prop, L, interval=None, other_interval=None):
     ex.witness()
 
 
+def h_orig_bam_two(ex, prop, L=181, interval='1/20', phase='1/50', mpg_limit=None):
+    """two broadcasts of one J1939-22 stack out of phase (the second starts `phase` after the first), optionally a multi-PG
+    group queued with a time limit as well: every session keeps its own pacing - consecutive segments of ONE session are at
+    least the configured interval apart whatever other deadlines are pending in the same job pass"""
+    w, n, ca, rx = mk_world(ex, 1, bam_interval=interval)
+    ivl = Fraction(interval)
+    nseg = tp22.nsegments(L)
+    w.run(until=T('1/100'))
+    ex.claim('accepted', ca.send_pgn(0, 0xFE, 0x10, 6, sym_payload(ex, 'a', 4) + [1] * (L - 4)) is True)
+    w.run(until=w.now + ex.fresh_real('phase', Fraction(phase), Fraction(phase) + Fraction(1, 200)))
+    ex.claim('accepted', ca.send_pgn(0, 0xFE, 0x11, 6, sym_payload(ex, 'c', 4) + [2] * (L + 56)) is True)
+    if mpg_limit is not None:
+        ex.claim('accepted', ca.send_pgn(0, 0xFE, 0x12, 6, [3] * 8, time_limit=Fraction(mpg_limit)) is True)
+    w.run(until=w.now + T(1) + (ivl + EPS[1]) * (nseg + 4))
+    by_session = {}
+    for f in w.log:
+        if f['src'] == 'S' and kind_of(f) == 'dt':
+            by_session.setdefault(concretize(f['data'][0]) // 16, []).append(f)
+    ex.claim('c09.fd.bam_two.both_sent', sorted(len(v) for v in by_session.values()) == sorted([nseg, tp22.nsegments(L + 60)]), {'segments': {k: len(v) for k, v in by_session.items()}})
+    for sess, fr in sorted(by_session.items()):
+        for a, b in zip(fr, fr[1:]):
+            ex.claim('c09.fd.bam_two.min_spacing', b['t'] - a['t'] >= ivl, {'session': sess, 'interval': str(ivl)})
+    ex.claim('job_thread_alive', n.job_alive())
+    ex.witness()
+
+
 def h_resp_bam(ex, prop, L, session=1):
     w, n, ca, rx = mk_world(ex, 1)
     dp = ex.fresh_int('dp', 0, 1)
@@ -399,6 +425,8 @@ def jobs(prop, tier):
         J('h_resp_bam', L=121, session=3)
     if prop == 'C09':
         J('h_orig_bam_busy', L=250, burst=12)
+        J('h_orig_bam_two', L=181)
+        J('h_orig_bam_two', L=121, interval='1/10', phase='3/100', mpg_limit='1/25')
         J('h_orig_cmdt', L=181, interval='1/20', other_interval='1/200')
         J('h_orig_bam', L=181, interval='1/20', other_interval='1/200')
         if not q:
